@@ -42,9 +42,9 @@ Fixpoint res_eqb (a b : res) : bool :=
    operation, length of the shared default list after the operation; -1 = not observed *)
 Definition obs := (Z * Z * Z * Z * Z)%type.
 
-(* process number, pool size, what populated the JIT cache the process starts with, digest of the generator state at
-   start, operations, observations *)
-Definition hist := (Z * Z * list (family * Z) * Z * list op * list obs)%type.
+(* process number, pool size, what populated the JIT cache the process starts with, hash salt (PYTHONHASHSEED, -1 = random),
+   digest of the generator state at start, operations, observations *)
+Definition hist := (Z * Z * list (family * Z) * Z * Z * list op * list obs)%type.
 
 Definition seed_given (st : gstate) (o : op) : option Z :=
   match o with
@@ -79,16 +79,16 @@ Definition self_ok (a : (res * option Z * rng * Z) * obs) : bool :=
   let '((_, _, _, n), (_, _, _, _, m)) := a in agree n m.
 
 Definition zip_trace (h : hist) : list ((res * option Z * rng * Z) * obs) :=
-  let '(pid, threads, cache, q0, ops, os) := h in
+  let '(pid, threads, cache, salt, q0, ops, os) := h in
   (* the start state takes part in the generator comparison as a pseudo operation *)
-  ((RNothing, None, rng_start pid, 0), (-1, -1, -1, q0, 0)) :: combine (mtrace (init_cache pid threads cache) ops) os.
+  ((RNothing, None, rng_start pid, 0), (-1, -1, -1, q0, 0)) :: combine (mtrace (init_full pid threads cache salt) ops) os.
 
 Definition check_pair (tbl : list (rng * Z)) (c : hist * hist) : bool :=
   let '(a, b) := c in
   let ta := zip_trace a in
   let tb := zip_trace b in
-  let '(_, _, _, _, opsa, osa) := a in
-  let '(_, _, _, _, opsb, osb) := b in
+  let '(_, _, _, _, _, opsa, osa) := a in
+  let '(_, _, _, _, _, opsb, osb) := b in
   (length opsa =? length osa)%nat && (length opsb =? length osb)%nat &&
   forallb self_ok ta && forallb self_ok tb &&
   forallb (fun x => forallb (pair_ok tbl x) tb) ta.
